@@ -2,6 +2,7 @@ package props
 
 import (
 	"bytes"
+	"context"
 	"fmt"
 	"math/rand"
 	"net/url"
@@ -557,6 +558,7 @@ func init() {
 				{Name: "callback_signatures", N: c.Pick(500, 5000), Fn: c04Callback},
 				{Name: "attribute_query_signatures", N: c.Pick(150, 1500), Fn: c04Query},
 				{Name: "metadata_signatures", N: c.Pick(150, 1500), Fn: c04Metadata},
+				{Name: "metadata_documents_in_flight_together", N: c.Pick(40, 400), Fn: c04MetadataOverlap},
 				{Name: "key_rotation_sequences", N: c.Pick(40, 400), Fn: c04Rotation},
 				{Name: "records_persisted_by_sso", N: c.Pick(300, 3000), Fn: c04EndToEnd},
 				{Name: "answers_in_flight_together", N: c.Pick(20, 200), Fn: c04ConcurrentQueries},
@@ -564,4 +566,106 @@ func init() {
 		},
 		After: func(c *Ctx) { verify.Py.Close() },
 	})
+}
+
+// c04MetadataOverlap: signed metadata is asked for under two host names of one provider at the same time; the reply
+// for the first host goes to a client that reads slowly (its first write stalls until the second document has been
+// sent completely). Both documents verify under the published certificate, and each names its own host only.
+func c04MetadataOverlap(r *core.Run, idx int, rng *rand.Rand) {
+	const wl = "metadata_documents_in_flight_together"
+	o := env.Opts{MetaSigAlg: []string{spsim.AlgRSASHA1, spsim.AlgRSASHA256}[rng.Intn(2)], HostPath: "/saml"}
+	// organisation data that is completed from the issuer when parts are left out
+	switch idx % 4 {
+	case 0:
+		o.Org = &provider.Organisation{Name: "Org", DisplayName: "Display"}
+	case 1:
+		o.Org = &provider.Organisation{Name: "Org", DisplayName: "Display", URL: "/about"}
+	case 2:
+		o.Org = &provider.Organisation{Name: "Org", DisplayName: "Display", URL: "https://org.example/"}
+		o.Contact = &provider.ContactPerson{ContactType: "technical", Company: "Comp"}
+	}
+	if idx%3 == 0 {
+		o.MetaIDP = &provider.MetadataIDPConfig{ErrorURL: "/error", CacheDuration: "PT1H"}
+	}
+	e, err := env.New(o)
+	if err != nil {
+		r.Inconclusive("cannot build provider: " + err.Error())
+		return
+	}
+	hostA, hostB := fmt.Sprintf("meta-a%d.example", idx), fmt.Sprintf("meta-b%d.example", idx)
+	bDone := make(chan struct{})
+	var once sync.Once
+	var callA *env.Call
+	doneA := make(chan struct{})
+	stallAt := []string{"first_write", "signing_key_lookup"}[idx%2]
+	if stallAt == "signing_key_lookup" {
+		e.W.Before = func(_ context.Context, tag, op string, _ int) {
+			if op == "GetMetadataSigningKey" && strings.HasSuffix(tag, "a") {
+				once.Do(func() {
+					select {
+					case <-bDone:
+					case <-time.After(2 * time.Second):
+					}
+				})
+			}
+		}
+	}
+	go func() {
+		defer close(doneA)
+		rq := env.Req{Path: env.PathMetadata, Host: hostA, Tag: fmt.Sprintf("mo%da", idx)}
+		if stallAt == "first_write" {
+			rq.OnWrite = func() {
+				once.Do(func() {
+					select {
+					case <-bDone:
+					case <-time.After(2 * time.Second):
+					}
+				})
+			}
+		}
+		callA = e.Do(rq)
+	}()
+	select {
+	case <-doneA:
+	case <-time.After(15 * time.Millisecond):
+	}
+	callB := e.Do(env.Req{Path: env.PathMetadata, Host: hostB, Tag: fmt.Sprintf("mo%db", idx)})
+	close(bDone)
+	<-doneA
+	cert := keys.Get("idp_meta").Cert
+	for _, x := range []struct {
+		name, own, other string
+		call             *env.Call
+	}{{"stalled_document", hostA, hostB, callA}, {"document_sent_meanwhile", hostB, hostA, callB}} {
+		class := fmt.Sprintf("metadata_overlap|%s|stall=%s", x.name, stallAt)
+		desc := map[string]any{"host": x.own, "other_host": x.other, "organisation": o.Org}
+		r.Eval(fmt.Sprintf("%s|%d", class, idx))
+		viol := func(clause, reason string) {
+			r.Violate(core.Violation{Clause: clause, Class: class, Reason: reason, Workload: wl, Index: idx, Case: desc, Observed: x.call.Describe()})
+		}
+		if x.call.Panic != "" {
+			viol("panic", x.call.Panic)
+			continue
+		}
+		if x.call.D.Status != 200 || !bytes.Contains(x.call.D.Body, []byte("SignatureValue")) {
+			viol("unsigned_metadata", fmt.Sprintf("status %d, signed document expected", x.call.D.Status))
+			continue
+		}
+		e1 := verify.V1(x.call.D.Body, "EntityDescriptor", cert)
+		ok2, why2, oerr := verify.V2(x.call.D.Body, "EntityDescriptor", cert)
+		if oerr != nil {
+			r.Inconclusive("python oracle unavailable: " + oerr.Error())
+			return
+		}
+		r.Count("metadata_documents_verified_while_another_was_in_flight", 1)
+		if e1 != nil {
+			viol("v1_rejects", e1.Error())
+		}
+		if !ok2 {
+			viol("v2_rejects", why2)
+		}
+		if bytes.Contains(x.call.D.Body, []byte(x.other)) {
+			viol("foreign_host_in_signed_document", fmt.Sprintf("the document served for %s names %s", x.own, x.other))
+		}
+	}
 }
